@@ -103,7 +103,7 @@ Qed.
 Definition wf_running (i : image) : Prop :=
   g_rr i = true
   /\ s_cksum_ok (primary i) = true /\ s_tree_ok (primary i) = true /\ wf_slot (primary i)
-  /\ s_txid (secondary i) < s_txid (primary i).
+  /\ (s_txid (secondary i) < s_txid (primary i) \/ secondary i = primary i).
 
 Definition same_commit (a b : slot) : Prop :=
   s_txid a = s_txid b /\ s_req a = s_req b /\ s_snap a = s_snap b /\ s_snap_pages a = s_snap_pages b.
@@ -132,6 +132,7 @@ Proof.
   destruct i as [gp grr gt s0 s1]. simpl in *.
   destruct gp; simpl in *;
   destruct s0 as [t0 c0 r0 sn0 sp0 rq0]; destruct s1 as [t1 c1 r1 sn1 sp1 rq1]; simpl in *; subst;
+  (destruct Hlt as [Hlt|Heq]; [|inversion Heq; subst]);
   destruct god; destruct sb; destruct data_ok; destruct k; simpl in Hposs; try discriminate;
   destruct gt; unfold ns, open, crash_image, select_primary, trusted_snapshot, repair_slot, primary, secondary, swap,
     put_secondary, torn, commit_slot, kind_tpc; simpl;
@@ -156,7 +157,7 @@ Theorem clean_close_loads : forall i txid req,
   exists o, open (closed_image i ns) = Ok o /\ o_path o = Load /\ same_commit (o_slot o) ns
             /\ o_alloc o = req /\ o_swapped o = false.
 Proof.
-  intros i txid req [Hrr [Hck [Htr [Hwf Hlt]]]] Hnew ns.
+  intros i txid req [Hrr [Hck [Htr [Hwf _]]]] Hnew ns.
   destruct i as [gp grr gt s0 s1]. simpl in *.
   destruct gp; simpl in *; unfold ns, open, closed_image, committed_image, crash_image, select_primary,
     trusted_snapshot, primary, secondary, put_secondary, commit_slot, kind_tpc; simpl;
